@@ -482,6 +482,12 @@ class Scene:
 def approx_eq(a, b, tol):
     if type(a) != type(b):
         return False
+    if isinstance(a, tuple) and len(a) == 2 and a[0] == 'g' and len(b) == 2 and b[0] == 'g':
+        # the members of a group in any order (their canonical order is by printed value, which rounding noise can permute)
+        if len(a[1]) != len(b[1]):
+            return False
+        ua, ub = multiset_match(list(a[1]), list(b[1]), tol)
+        return not ua and not ub
     if isinstance(a, tuple):
         return len(a) == len(b) and all(approx_eq(x, y, tol) for x, y in zip(a, b))
     if isinstance(a, F):
@@ -573,6 +579,7 @@ class Ctx:
         self.calls = 0
         self.noise_calls = 0
         self.maxima = {}
+        self.hang_confirmed = False
 
     def maxi(self, name, value):
         if value > self.maxima.get(name, float('-inf')):
@@ -634,6 +641,11 @@ class Ctx:
     def run_case(self, case):
         """check one case; a disagreement counts only if it reproduces on a fresh driver"""
         mod = self.module
+        if getattr(self, 'hang_confirmed', False):
+            # a conversion of this shard did not return twice within its watchdog: the verdict is in, the remaining
+            # cases of the shard are skipped rather than each waited for
+            self.tags['cases_skipped_after_a_hang'] += 1
+            return None
         try:
             msg = mod.check_case(self, case)
         except (DriverDied, Watchdog) as e:
@@ -703,6 +715,7 @@ class Ctx:
                     msg = 'conversion does not return within %d s (twice)' % (case.get('watchdog', CALL_WATCHDOG_S) if isinstance(case, dict) else CALL_WATCHDOG_S)
                     if getattr(self.module, 'HANG_IS_VIOLATION', False):
                         self._violation(case, msg, sig='hang')
+                        self.hang_confirmed = True
                         return msg
                 self.inconclusive['watchdog'] += 1
                 return None
